@@ -73,6 +73,20 @@ def run (n : Nat) : List Ev → Nat → Res
   | .assert none :: _, i => .ub i
   | .touch lo len _ :: r, i => if inside n lo len then run n r (i + 1) else .fault i
 
+/-- outcome when the view `[0, n)` lies inside a larger allocation `[0, n + slack)`: an out-of-view
+    access inside the slack completes; `dirty` = some WRITE touched a byte in `[n, n + slack)` -/
+def runCanary (n slack : Nat) : List Ev → Nat → Bool → Res × Bool
+  | [], _, dirty => (.ok, dirty)
+  | .check _ _ _ (some true) :: r, i, dirty => runCanary n slack r (i + 1) dirty
+  | .check _ _ _ (some false) :: _, i, dirty => (.assertFailed i, dirty)
+  | .check _ _ _ none :: _, i, dirty => (.ub i, dirty)
+  | .assert (some true) :: r, i, dirty => runCanary n slack r (i + 1) dirty
+  | .assert (some false) :: _, i, dirty => (.assertFailed i, dirty)
+  | .assert none :: _, i, dirty => (.ub i, dirty)
+  | .touch lo len w :: r, i, dirty =>
+    if inside (n + slack) lo len then runCanary n slack r (i + 1) (dirty || (w && !inside n lo len))
+    else (.fault i, dirty)
+
 /-! ### evaluation of the extracted checks -/
 
 def macroEnv (vb ve vo vs : CVal) : Env := [("begin", vb), ("end", ve), ("offset", vo), ("size", vs)]
@@ -211,16 +225,64 @@ def dataElem (c : Ctx) (d : DataL) (p i : Nat) (w : Bool) : List Ev :=
   e1 ++ [.assert (evalAssert dynamic_array_ref_index__pos 0 [("pos", uval d.lenSize i), ("size", uval d.lenSize len)])]
      ++ dataChecked c d p ++ [.touch (p + d.lenSize + i) 1 w]
 
-/-- `resize(count, default_init)` -/
+/-- is the size check of `resize(count, default_init)` executed?  Follows the extracted site: an
+    unconditional check is always executed; a check nested in `if(C)` is executed when `C` (over
+    `count` and `size()`) holds; any other shape is not modelled (`none`). -/
+def resizeChecked (d : DataL) (count len : Nat) : Option Bool :=
+  match dynamic_array_ref_resize__count_default_init_t.checkCond? 0 with
+  | some none => some true
+  | some (some (.expr e)) =>
+    (e.eval [("count", uval d.lenSize count), ("size", uval d.lenSize len)]).map CVal.isTrue
+  | _ => none
+
+/-- `resize(count, default_init)`: the size check in the shape the extracted site has, then the
+    write of the length prefix.  A conditional check reads `size()` to evaluate its condition. -/
 def dataResize (c : Ctx) (d : DataL) (p count : Nat) : List Ev :=
-  [.check p 0 (d.lenSize + count) (evalSizeCheck dynamic_array_ref_resize__count_default_init_t 0
-      (dynEnv c d p ++ [("count", uval d.lenSize count)])),
-   .touch p d.lenSize true]
+  let chk : Ev := .check p 0 (d.lenSize + count) (evalSizeCheck dynamic_array_ref_resize__count_default_init_t 0
+      (dynEnv c d p ++ [("count", uval d.lenSize count)]))
+  match dynamic_array_ref_resize__count_default_init_t.checkCond? 0 with
+  | some none => [chk, .touch p d.lenSize true]
+  | _ =>
+    (dataLen c d p).1 ++
+      (match resizeChecked d count (dataLen c d p).2 with
+       | some true => [chk]
+       | some false => []
+       | none => [.assert none]) ++ [.touch p d.lenSize true]
+
+/-- `data_checked()` when `size()` is known to return `len` (after a `resize`) -/
+def dataCheckedWith (c : Ctx) (d : DataL) (p len : Nat) : List Ev :=
+  getValue c p 0 d.lenSize ++ [.check p 0 (d.lenSize + len) (evalSizeCheck dynamic_array_ref_data_checked 0
+            (dynEnv c d p ++ [("size", uval d.lenSize len)]))]
+     ++ dataUnchecked c d p
+
+/-- `assign(count, value)` and `assign_string(str)` with `count` characters: `resize`, then the
+    elements are written through `begin()` -/
+def dataAssignN (c : Ctx) (d : DataL) (p count : Nat) : List Ev :=
+  dataResize c d p count ++ dataCheckedWith c d p count ++ [.touch (p + d.lenSize) count true]
 
 /-- `assign_range(r)` / `assign(first, last)` with `len` elements: the copy happens BEFORE the
     only check that covers it (`resize`) -/
 def dataAssignRange (c : Ctx) (d : DataL) (p len : Nat) : List Ev :=
   dataUnchecked c d p ++ [.touch (p + d.lenSize) len true] ++ dataResize c d p len
+
+/-- `assign(std::initializer_list)`: its own size check first, then `assign(first, last)` -/
+def dataAssignIlist (c : Ctx) (d : DataL) (p len : Nat) : List Ev :=
+  [.check p 0 (d.lenSize + len) (evalSizeCheck dynamic_array_ref_assign__ilist 0
+      (dynEnv c d p ++ [("ilist_size", u64 len)]))] ++ dataAssignRange c d p len
+
+/-- `push_back(value)`: `size()`, `resize(size() + 1)`, `(*this)[old size] = value` -/
+def dataPush (c : Ctx) (d : DataL) (p : Nat) : List Ev :=
+  let cur := (dataLen c d p).2
+  (dataLen c d p).1 ++ dataResize c d p (cur + 1) ++ getValue c p 0 d.lenSize ++
+    [.assert (evalAssert dynamic_array_ref_index__pos 0 [("pos", uval d.lenSize cur), ("size", uval d.lenSize (cur + 1))])]
+    ++ dataCheckedWith c d p (cur + 1) ++ [.touch (p + d.lenSize + cur) 1 true]
+
+/-- `pop_back()`: `SBEPP_ASSERT(!empty())`, `resize(size() - 1)` -/
+def dataPop (c : Ctx) (d : DataL) (p : Nat) : List Ev :=
+  let cur := (dataLen c d p).2
+  (dataLen c d p).1 ++
+    [.assert (evalAssert dynamic_array_ref_pop_back 0 [("empty", CVal.ofBool (cur == 0))])] ++
+    (dataLen c d p).1 ++ dataResize c d p (cur - 1)
 
 /-- `static_array_ref<.., N>::data()` -/
 def arrData (c : Ctx) (p N : Nat) : List Ev :=
@@ -358,6 +420,12 @@ inductive Op
   | dElem (i : Nat) (set : Bool)
   | dResize (count : Nat)
   | dAssign (len : Nat)
+  /-- data: `assign(count, value)` / `assign_string`, `assign(ilist)`, `push_back`, `pop_back`, `clear` -/
+  | dAssignN (count : Nat)
+  | dAssignIlist (len : Nat)
+  | dPush
+  | dPop
+  | dClear
   /-- `sbepp::size_bytes(view)` of message / entry / group / data -/
   | sizeBytes
   deriving Repr, Inhabited
@@ -446,6 +514,11 @@ def step (c : Ctx) : Pos → Op → Option (List Ev × Pos)
   | .data p d, .dElem i set => some (dataElem c d p i set, .done)
   | .data p d, .dResize count => some (dataResize c d p count, .done)
   | .data p d, .dAssign len => some (dataAssignRange c d p len, .done)
+  | .data p d, .dAssignN count => some (dataAssignN c d p count, .done)
+  | .data p d, .dAssignIlist len => some (dataAssignIlist c d p len, .done)
+  | .data p d, .dPush => some (dataPush c d p, .done)
+  | .data p d, .dPop => some (dataPop c d p, .done)
+  | .data p d, .dClear => some (dataResize c d p 0, .done)
   | _, _ => none
 
 /-- begin offset of a view (what `sbepp::addressof` returns, relative to the buffer) -/
@@ -766,6 +839,10 @@ def Op.preB (c : Ctx) : Pos → Op → Bool
   | .data p d, .dElem i _ => decide (i < (dataLen c d p).2)
   | .data _ d, .dResize count => canonB d.lenSize count
   | .data _ d, .dAssign len => canonB d.lenSize len
+  | .data _ d, .dAssignN count => canonB d.lenSize count
+  | .data _ d, .dAssignIlist len => canonB d.lenSize len
+  | .data p d, .dPush => canonB d.lenSize ((dataLen c d p).2 + 1)
+  | .data p d, .dPop => decide (0 < (dataLen c d p).2)
   | _, _ => true
 
 /-- accessor kinds whose checks all precede the accesses they guard -/
